@@ -140,6 +140,9 @@ MovesUnion(h, kn) ==
                  \o (IF Cardinality(t.root) = 2 THEN <<MUnion(jc, rc, FALSE), MUnion(jc, rc, TRUE)>> ELSE <<>>)
                  \o MapS(Take(SetToSortSeq({c \in kn : c \in Scope(h[lc]) /\ h[lc].ty[c] = "int"}, <), 2),
                          LAMBDA c : MMutate(jc, <<KV("probe", Col(c))>>))
+                 \* the same reference inside an operator (the operator node must take its type from the column as the union sees it)
+                 \o MapS(Take(SetToSortSeq({c \in kn : c \in Scope(h[lc]) /\ h[lc].ty[c] = "int"}, <), 2),
+                         LAMBDA c : MMutate(jc, <<KV("probe", Fn2("mul", Col(c), LitI(2)))>>))
         ELSE (IF lc = 1 THEN PreUnion(h[1], 1) ELSE <<>>)
              \o (IF rc = 2 THEN PreUnion(h[2], 2) ELSE <<>>)
              \o <<MUnion(lc, rc, FALSE), MUnion(lc, rc, TRUE)>>
